@@ -78,10 +78,12 @@ Table ==
      cmp  |-> [s \in Times |-> [t \in Times |-> <<B(Lt(s, t)), B(Le(s, t)), B(Gt(s, t)), B(Ge(s, t)), B(Eq(s, t)), B(Ne(s, t))>>]],
      sub  |-> [s \in FiniteTimes |-> [t \in FiniteTimes |-> Sub(s, t)]],
      ff   |-> [x \in (QLo * Den .. QHi * Den) \cup {InfD} |-> FromFloat(x)]]
-EmitTable == PrintT(<<"TABLE", ToJson(
+ASSUME TLCSet(7, 0)
+(* printed once: the table is a constant, but TLC would re-evaluate (and re-serialise) it in every state *)
+EmitTable == TLCGet(7) = 1 \/ (TLCSet(7, 1) /\ PrintT(<<"TABLE", ToJson(
     [adds |-> {<<t.q, t.r, d, Add(t, d).q, Add(t, d).r>> : t \in FiniteTimes, d \in Disps},
      cmps |-> {<<s.q, s.r, t.q, t.r, B(Lt(s, t)), B(Le(s, t)), B(Gt(s, t)), B(Ge(s, t)), B(Eq(s, t)), B(Ne(s, t))>> :
                   s \in Times, t \in Times},
      subs |-> {<<s.q, s.r, t.q, t.r, Sub(s, t)>> : s \in FiniteTimes, t \in FiniteTimes},
-     ffs  |-> {<<x, FromFloat(x).q, FromFloat(x).r>> : x \in (QLo * Den .. QHi * Den) \cup {InfD}}])>>)
+     ffs  |-> {<<x, FromFloat(x).q, FromFloat(x).r>> : x \in (QLo * Den .. QHi * Den) \cup {InfD}}])>>))
 =============================================================================
